@@ -1,6 +1,6 @@
 (* C04 -- property theorems (statements only; proofs live in proofs/Owner.v). *)
-From Clip Require Import model.Owner proofs.Owner.
-From Coq Require Import List Bool Arith.
+From Clip Require Import model.Owner proofs.Owner model.TreeCheck proofs.TreeContains.
+From Coq Require Import List Bool Arith ZArith.
 Import ListNotations.
 
 (* PolyPath::IsHole() is "Level even and non-zero"; a polygon at 0-based depth d below the root has Level d+1,
@@ -73,3 +73,16 @@ Theorem C04_check_split_guarded_terminates : forall inside bcontains m i spl,
   exists fuel r, check_split_owner inside bcontains true fuel m i spl = Some r.
 Proof. exact check_split_guarded_terminates. Qed.
 Print Assumptions C04_check_split_guarded_terminates.
+
+(* CheckPolytreeFullyContainsChildren (clipper.h; model TreeCheck.fully_contains: the counter walk of
+   details::PolyPath64ContainsChildren over every parent/child pair below the top level, PointInPolygon through its
+   exact specification) answers true on every tree of polygons (>= 3 vertices each) in which the exact checker finds no
+   child outside its parent (clause 32 of tree_check).  The converse is false (one vertex outside is tolerated:
+   TreeContains.fully_contains_weaker_than_clause_32); the check compares the real function with the extracted model on
+   library-built and hand-built trees. *)
+Theorem C04_fully_contains_of_tree_check : forall rv nodes closed opened topen,
+  (forall i, ~ In (code_child_outside, i) (tree_check rv nodes closed opened topen)) ->
+  (forall n, In n nodes -> (3 <= length (tn_path n))%nat) ->
+  fully_contains nodes = true.
+Proof. exact fully_contains_of_tree_check. Qed.
+Print Assumptions C04_fully_contains_of_tree_check.
